@@ -1,7 +1,54 @@
-(** * Inv_concat: the master invariant of concat, for every member count [n] *)
+(** * Inv_concat: the master invariant of concat, for every member count [n]
+
+    [n] stays a variable throughout ([n = 0] is the special branch of
+    src/concat.rs:95-113).  The invariant [Inv] says where the run is
+    ([phase]) and what the members look like around the cursor [cc_i]:
+    members below it have ended, members above it were never subscribed, the
+    member at it is subscribed / live / stopped / failed according to the
+    phase.  The stack only matters in two ways: every frame is [CcDone]
+    (except the one [CcZero] frame of the zero-member greeting), and while the
+    current member has not greeted the subscribing call is the innermost
+    pending call, so that by local reaction nobody but that member can act
+    and the sink never sees the stale talkback of the previous member.
+
+    A second invariant [TInv] ties the cursor to the trace (it counts the
+    member Terminates) and the Terminate of the sink to [cc_i = n].
+
+    Exported: [concat_safe], [concat_order], [concat_completes],
+    [concat_pull_carried] (all closed), and a non-vacuity witness. *)
 From CB Require Import ProofLib Spec.
 
 Set Implicit Arguments.
+
+(** payloads received from any member, in order of arrival *)
+Fixpoint all_in (tr : list event) : list val :=
+  match tr with
+  | [] => []
+  | EIn (IDn _ (DD v)) :: tr' => v :: all_in tr'
+  | _ :: tr' => all_in tr'
+  end.
+
+Lemma all_in_app tr1 tr2 : all_in (tr1 ++ tr2) = all_in tr1 ++ all_in tr2.
+Proof.
+  induction tr1 as [|e tr1 IH]; cbn; [reflexivity|].
+  destruct e as [[s a|s u|j [|v|e|]|s]|c| | |ob|]; cbn; try exact IH.
+  now rewrite IH.
+Qed.
+
+(** how many member Terminates have arrived *)
+Fixpoint dt_in (tr : list event) : nat :=
+  match tr with
+  | [] => 0
+  | EIn (IDn _ DT) :: tr' => S (dt_in tr')
+  | _ :: tr' => dt_in tr'
+  end.
+
+Lemma dt_in_app tr1 tr2 : dt_in (tr1 ++ tr2) = dt_in tr1 + dt_in tr2.
+Proof.
+  induction tr1 as [|e tr1 IH]; cbn; [reflexivity|].
+  destruct e as [[s a|s u|j [|v|e|]|s]|c| | |ob|]; cbn; try exact IH.
+  now rewrite IH.
+Qed.
 
 Section ConcatInv.
   Variable n : nat.
@@ -85,7 +132,8 @@ Section ConcatInv.
   (** a live upstream is the current member, and then the sink is live *)
   Lemma live_current c j : Inv c -> us (ms c) j = ULive ->
                            j = cc_i (cst c) /\ sk (ms c) 0 = SLive /\ cc_i (cst c) < n /\
-                           cc_tb (cst c) = Some (cc_i (cst c)) /\ done_frames (stack c).
+                           cc_tb (cst c) = Some (cc_i (cst c)) /\ done_frames (stack c) /\
+                           subd (ms c) 0 = true.
   Proof.
     intros [] Hj.
     assert (E : j = cc_i (cst c)).
@@ -98,20 +146,714 @@ Section ConcatInv.
     - rewrite B in Hj. cbn in Hj. congruence.
     - tauto.
     - rewrite Hj in C. destruct C.
-    - rewrite C in Hj. congruence.
-    - rewrite C in Hj. congruence.
   Qed.
 
-  Lemma quiescent_ok c m' : Inv c ->
-    (sk_over (sk m' 0) = true -> forall j, us m' j = ULive -> us (ms c) j = ULive /\ sk (ms c) 0 = sk m' 0) ->
+  (** a subscribed upstream that has not greeted is the current member, and
+      the subscribing call is the innermost pending call *)
+  Lemma subd_current c j : Inv c -> us (ms c) j = USubd ->
+                           j = cc_i (cst c) /\ cc_i (cst c) < n /\
+                           sk (ms c) 0 = match cc_i (cst c) with 0 => SNone | S _ => SLive end /\
+                           done_frames (stack c) /\ subd (ms c) 0 = true.
+  Proof.
+    intros [] Hj.
+    assert (E : j = cc_i (cst c)).
+    { destruct (Nat.lt_trichotomy j (cc_i (cst c))) as [H|[H|H]]; [|exact H|].
+      - rewrite i_before0 in Hj by exact H. discriminate.
+      - rewrite i_after0 in Hj by exact H. discriminate. }
+    subst j. split; [reflexivity|].
+    destruct i_phase0 as [A B C D E F|k rest A B C D E F|A B C D E F|A B C D|A B C D E F G|A B C D E F G];
+      try congruence.
+    - rewrite B in Hj. cbn in Hj. congruence.
+    - tauto.
+    - rewrite Hj in C. destruct C.
+  Qed.
+
+  Lemma quiescent_ok m' :
+    (forall j, us m' j = ULive -> sk_over (sk m' 0) = false) ->
     (forall s, err_due m' s = None) -> check_quiescent p m' = [].
   Proof.
-    intros HI H1 H2. apply quiescent_nil.
+    intros H1 H2. apply quiescent_nil.
     - intros _ Hov j _. destruct (us m' j) eqn:E; try reflexivity.
-      destruct (H1 Hov j E) as [Hl Hsk].
-      destruct (live_current HI Hl) as (_ & Hs & _). rewrite <- Hsk, Hs in Hov. discriminate.
+      rewrite (H1 j E) in Hov. discriminate.
     - exact H2.
     - rewrite Hc14. discriminate.
   Qed.
 
+  Lemma done_eq m : check_quiescent p m = [] -> mon_event p m EDone = m.
+  Proof.
+    intros H. cbn. destruct (cstack m); [|reflexivity].
+    rewrite H. destruct m; reflexivity.
+  Qed.
+
+  (** ** What the handlers do, case by case *)
+  Definition s_init : cc_st :=
+    {| cc_i := 0; cc_tb := None; cc_got_pull := false; cc_disposed := false |}.
+
+  Lemma h_sub_z aux s : n = 0 ->
+    handle o (ISub 0 aux) s = (s_init, [], ACall (CDn 0 DH) CcZero).
+  Proof.
+    intros H. unfold o, concat_op, handle, cc_handle.
+    destruct (Nat.eqb_spec n 0); [reflexivity | congruence].
+  Qed.
+
+  Lemma h_sub_s aux s : n <> 0 ->
+    handle o (ISub 0 aux) s = (s_init, [], ACall (CSub 0) CcDone).
+  Proof.
+    intros H. unfold o, concat_op, handle, cc_handle, cc_next. cbn [cc_i].
+    destruct (Nat.eqb_spec n 0); [congruence|].
+    destruct (Nat.eqb_spec 0 n); [congruence | reflexivity].
+  Qed.
+
+  Lemma h_up_z u s : n = 0 ->
+    handle o (IUp 0 u) s =
+    (if umsg_is_term u
+     then {| cc_i := cc_i s; cc_tb := cc_tb s; cc_got_pull := cc_got_pull s; cc_disposed := true |}
+     else s, [], ARet).
+  Proof.
+    intros H. unfold o, concat_op, handle, cc_handle.
+    destruct (Nat.eqb_spec n 0); [|congruence]. destruct (umsg_is_term u); reflexivity.
+  Qed.
+
+  Lemma h_up_s u s k : n <> 0 -> cc_tb s = Some k ->
+    handle o (IUp 0 u) s =
+    (match u with
+     | UP => {| cc_i := cc_i s; cc_tb := cc_tb s; cc_got_pull := true;
+                cc_disposed := cc_disposed s |}
+     | _ => s end, [], ACall (CUp k u) CcDone).
+  Proof.
+    intros H Htb. unfold o, concat_op, handle, cc_handle.
+    destruct (Nat.eqb_spec n 0); [congruence|]. rewrite Htb. reflexivity.
+  Qed.
+
+  Lemma h_dt_last j s : S (cc_i s) = n ->
+    handle o (IDn j DT) s =
+    ({| cc_i := S (cc_i s); cc_tb := cc_tb s; cc_got_pull := cc_got_pull s;
+        cc_disposed := cc_disposed s |}, [], ACall (CDn 0 DT) CcDone).
+  Proof.
+    intros H. unfold o, concat_op, handle, cc_handle, cc_next. cbn [cc_i].
+    destruct (Nat.eqb_spec (S (cc_i s)) n); [reflexivity | congruence].
+  Qed.
+
+  Lemma h_dt_next j s : S (cc_i s) <> n ->
+    handle o (IDn j DT) s =
+    ({| cc_i := S (cc_i s); cc_tb := cc_tb s; cc_got_pull := cc_got_pull s;
+        cc_disposed := cc_disposed s |}, [], ACall (CSub (S (cc_i s))) CcDone).
+  Proof.
+    intros H. unfold o, concat_op, handle, cc_handle, cc_next. cbn [cc_i].
+    destruct (Nat.eqb_spec (S (cc_i s)) n); [congruence | reflexivity].
+  Qed.
+
+  Definition with_tb (s : cc_st) (j : nat) : cc_st :=
+    {| cc_i := cc_i s; cc_tb := Some j; cc_got_pull := cc_got_pull s;
+       cc_disposed := cc_disposed s |}.
+
+  Lemma h_dh_first j s : cc_i s = 0 ->
+    handle o (IDn j DH) s = (with_tb s j, [], ACall (CDn 0 DH) CcDone).
+  Proof. intros H. unfold with_tb. cbn. destruct (cc_i s); [reflexivity | discriminate]. Qed.
+
+  Lemma h_dh_pull j s : cc_i s <> 0 -> cc_got_pull s = true ->
+    handle o (IDn j DH) s = (with_tb s j, [], ACall (CUp j UP) CcDone).
+  Proof.
+    intros H H'. unfold with_tb. cbn. rewrite H'. destruct (cc_i s); [congruence | reflexivity].
+  Qed.
+
+  Lemma h_dh_idle j s : cc_i s <> 0 -> cc_got_pull s = false ->
+    handle o (IDn j DH) s = (with_tb s j, [], ARet).
+  Proof.
+    intros H H'. unfold with_tb. cbn. rewrite H'. destruct (cc_i s); [congruence | reflexivity].
+  Qed.
+
+  Ltac crush2 :=
+    repeat match goal with
+           | |- forall _, _ => intro
+           | H : _ \/ _ |- _ => destruct H
+           | H : False |- _ => destruct H
+           | |- context [upd _ ?k _ ?x] =>
+               unfold upd; destruct (Nat.eqb_spec x k); subst
+           | |- context [if Nat.eqb ?x ?k then _ else _] =>
+               destruct (Nat.eqb_spec x k); subst
+           end;
+    auto; try congruence; try lia; try tauto; try reflexivity;
+    try (match goal with
+         | H : forall j, _ -> us _ j = _ |- us _ _ = _ => apply H; lia
+         end);
+    try (repeat apply done_cons; first [assumption | apply done_nil]);
+    try (match goal with
+         | H : forall s, s <> 0 -> sk _ s = SNone, H' : ?s <> 0 |- context [sk _ ?s] =>
+             rewrite (H s H'); rewrite ?Bool.andb_false_r; auto
+         end);
+    try (rw_st; cbn; auto; fail).
+
+  Ltac fin4 Hc Hm Hs Hd :=
+    rewrite ?Hc, ?Hm, ?Hs, ?Hd; unfold ms_settle; cbn [fold_left map mon_event];
+    rewrite ?add_viols_eq; cbn;
+    unfold due_on_error; repeat (rw_st; cbn; rewrite ?upd_same, ?Nat.eqb_refl; cbn); crush2.
+
+  Lemma inv_sub c s aux : Inv c -> enabled p g_std c (MIn (ISub s aux)) = true ->
+                          Inv (step p c (MIn (ISub s aux))).
+  Proof.
+    intros HI He. pose proof HI as []. start_in He Hlive Hdel Hg.
+    cbn in He, Hg. rewrite Hns in He. destruct aux; [|discriminate].
+    destruct (at_top c) eqn:Htop; cbn in He; try discriminate.
+    destruct s; cbn in He; try discriminate.
+    apply negb_true_iff in He.
+    destruct i_phase0 as [A B C D E F|k rest A B C D E F|A B C D E F|A B C D|A B C D E F G|A B C D E F G];
+      try congruence.
+    rewrite B in *. cbn in i_le0, i_before0, i_after0, i_pull0.
+    destruct (Nat.eq_dec n 0) as [Hn|Hn].
+    - destruct (step_in p c (ISub 0 0) Hlive Hdel (h_sub_z 0 _ Hn)) as (Hc & Hs & Hm & Hd).
+      rewrite C in Hs.
+      constructor; [..|apply PhZGreet]; fin4 Hc Hm Hs Hd.
+    - destruct (step_in p c (ISub 0 0) Hlive Hdel (h_sub_s 0 _ Hn)) as (Hc & Hs & Hm & Hd).
+      rewrite C in Hs.
+      constructor; [..|eapply PhSubd]; fin4 Hc Hm Hs Hd.
+  Qed.
+
+  Ltac phases H :=
+    destruct H as [A B C D E F|k rest A B C D E F|A B C D E F|A B C D|A B C D E F G|A B C D E F G].
+
+  Lemma inv_up c s u : Inv c -> enabled p g_std c (MIn (IUp s u)) = true ->
+                       Inv (step p c (MIn (IUp s u))).
+  Proof.
+    intros HI He. pose proof HI as []. start_in He Hlive Hdel Hg.
+    cbn in He. apply andb_prop in He. destruct He as [He Hu].
+    apply andb_prop in He. destruct He as [Htop Hsk].
+    destruct s as [|s]; [|rewrite i_sk_other0 in Hsk by lia; discriminate].
+    destruct (sk (ms c) 0) eqn:Esk; try discriminate.
+    phases i_phase0; rewrite ?Esk in *; try discriminate; try congruence.
+    - (* PhSubd: the subscribing call is on top, the sink cannot act *)
+      unfold top_peer_is in Htop. rewrite D in Htop. discriminate.
+    - (* PhLive *)
+      assert (Hn : n <> 0) by lia.
+      destruct (step_in p c (IUp 0 u) Hlive Hdel (h_up_s u _ Hn E)) as (Hc & Hs & Hm & Hd).
+      destruct u as [|e|].
+      + constructor; [..|eapply PhLive]; fin4 Hc Hm Hs Hd.
+      + constructor; [..|eapply PhOver]; fin4 Hc Hm Hs Hd.
+      + constructor; [..|eapply PhOver]; fin4 Hc Hm Hs Hd.
+    - (* PhZGreet *)
+      destruct (step_in p c (IUp 0 u) Hlive Hdel (h_up_z u _ B)) as (Hc & Hs & Hm & Hd).
+      assert (Hnone : forall j, us (ms c) j = UNone).
+      { intros [|j]; [exact D | apply i_after0; lia]. }
+      unfold ms_settle in Hm; cbn [fold_left map] in Hm. rewrite done_eq in Hm.
+      2:{ apply quiescent_ok; destruct u; cbn; intros; rewrite ?Hnone in *; crush2. }
+      destruct u as [|e|]; cbn in Hc.
+      + constructor; [..|eapply PhZGreet]; fin4 Hc Hm Hs Hd.
+      + constructor; [..|eapply PhZDisp]; fin4 Hc Hm Hs Hd. 
+      + constructor; [..|eapply PhZDisp]; fin4 Hc Hm Hs Hd. 
+  Qed.
+
+  Lemma inv_dn c j d : Inv c -> enabled p g_std c (MIn (IDn j d)) = true ->
+                       Inv (step p c (MIn (IDn j d))).
+  Proof.
+    intros HI He. pose proof HI as []. start_in He Hlive Hdel Hg.
+    cbn in He. apply andb_prop in He. destruct He as [Htop He].
+    destruct d as [|v|e|].
+    - (* the current member greets *)
+      apply andb_prop in He. destruct He as [He _].
+      destruct (us (ms c) j) eqn:Eus; try discriminate.
+      destruct (subd_current j HI Eus) as (-> & Hlt & Hsk & Hfr & Hsub).
+      destruct (Nat.eq_dec (cc_i (cst c)) 0) as [Ei|Ei];
+        [|destruct (cc_got_pull (cst c)) eqn:Egp].
+      + destruct (step_in p c (IDn (cc_i (cst c)) DH) Hlive Hdel (h_dh_first _ _ Ei))
+          as (Hc & Hs & Hm & Hd).
+        rewrite Ei in Hsk.
+        constructor; [..|eapply PhLive]; unfold with_tb in Hc; fin4 Hc Hm Hs Hd.
+      + destruct (step_in p c (IDn (cc_i (cst c)) DH) Hlive Hdel (h_dh_pull _ _ Ei Egp))
+          as (Hc & Hs & Hm & Hd).
+        destruct (cc_i (cst c)) as [|i'] eqn:Ei'; [congruence|]. rewrite <- Ei' in *.
+        constructor; [..|eapply PhLive]; unfold with_tb in Hc; fin4 Hc Hm Hs Hd.
+      + destruct (step_in p c (IDn (cc_i (cst c)) DH) Hlive Hdel (h_dh_idle _ _ Ei Egp))
+          as (Hc & Hs & Hm & Hd).
+        destruct (cc_i (cst c)) as [|i'] eqn:Ei'; [congruence|]. rewrite <- Ei' in *.
+        unfold ms_settle in Hm; cbn [fold_left map] in Hm. rewrite done_eq in Hm.
+        2:{ apply quiescent_ok; cbn; intros; rw_st; crush2. }
+        constructor; [..|eapply PhLive]; unfold with_tb in Hc; fin4 Hc Hm Hs Hd.
+        rewrite Egp. auto.
+    - (* Data from the current member *)
+      apply andb_prop in He. destruct He as [He _].
+      destruct (us (ms c) j) eqn:Eus; try discriminate.
+      destruct (live_current j HI Eus) as (-> & Hsk & Hlt & Htb & Hfr & Hsub).
+      destruct (step_in p c (IDn (cc_i (cst c)) (DD v)) Hlive Hdel eq_refl) as (Hc & Hs & Hm & Hd).
+      constructor; [..|eapply PhLive]; fin4 Hc Hm Hs Hd.
+    - (* Error from the current member *)
+      apply andb_prop in He. destruct He as [He _].
+      destruct (us (ms c) j) eqn:Eus; try discriminate.
+      destruct (live_current j HI Eus) as (-> & Hsk & Hlt & Htb & Hfr & Hsub).
+      destruct (step_in p c (IDn (cc_i (cst c)) (DE e)) Hlive Hdel eq_refl) as (Hc & Hs & Hm & Hd).
+      constructor; [..|eapply PhOver]; fin4 Hc Hm Hs Hd.
+    - (* Terminate from the current member: subscribe the next one or complete *)
+      apply andb_prop in He. destruct He as [He _].
+      destruct (us (ms c) j) eqn:Eus; try discriminate.
+      destruct (live_current j HI Eus) as (-> & Hsk & Hlt & Htb & Hfr & Hsub).
+      destruct (Nat.eq_dec (S (cc_i (cst c))) n) as [Hn|Hn].
+      + destruct (step_in p c (IDn (cc_i (cst c)) DT) Hlive Hdel (h_dt_last _ _ Hn))
+          as (Hc & Hs & Hm & Hd).
+        assert (Enext : us (ms c) (S (cc_i (cst c))) = UNone) by (apply i_after0; lia).
+        constructor; [..|eapply PhOver]; fin4 Hc Hm Hs Hd.
+      + destruct (step_in p c (IDn (cc_i (cst c)) DT) Hlive Hdel (h_dt_next _ _ Hn))
+          as (Hc & Hs & Hm & Hd).
+        assert (Enext : us (ms c) (S (cc_i (cst c))) = UNone) by (apply i_after0; lia).
+        constructor; [..|eapply PhSubd]; fin4 Hc Hm Hs Hd.
+  Qed.
+
+  Lemma inv_ret c : Inv c -> enabled p g_std c MRet = true -> Inv (step p c MRet).
+  Proof.
+    intros HI He. pose proof HI as [].
+    pose proof (enabled_live _ _ _ _ He) as Hlive.
+    destruct (enabled_ret_stack _ _ _ He) as (k0 & cl & rest0 & Hst).
+    assert (Hq : check_quiescent p (mon_event p (ms c) ERet) = []).
+    { apply quiescent_ok; cbn; [|exact i_due0].
+      intros j Hj. destruct (live_current j HI Hj) as (_ & Hsk & _). now rewrite Hsk. }
+    phases i_phase0.
+    - congruence.
+    - (* PhSubd: the member has not greeted, the return is not enabled *)
+      unfold enabled in He. rewrite Hlive, D, Hlate, C in He. discriminate.
+    - rewrite Hst in F. destruct (done_inv F) as [-> Hfr].
+      destruct (step_ret p c Hlive Hst eq_refl) as (Hc & Hs & Hm & Hd).
+      unfold ms_settle in Hm; cbn [fold_left map] in Hm. rewrite (done_eq _ Hq) in Hm.
+      constructor; [..|eapply PhLive]; fin4 Hc Hm Hs Hd.
+    - rewrite Hst in D. destruct (done_inv D) as [-> Hfr].
+      destruct (step_ret p c Hlive Hst eq_refl) as (Hc & Hs & Hm & Hd).
+      unfold ms_settle in Hm; cbn [fold_left map] in Hm. rewrite (done_eq _ Hq) in Hm.
+      constructor; [..|eapply PhOver]; fin4 Hc Hm Hs Hd.
+    - (* zero members, the greeting returns and the sink has not disposed *)
+      assert (Hres : resume o CcZero (cst c) = (cst c, [], ACall (CDn 0 DT) CcDone)).
+      { cbn. now rewrite F. }
+      destruct (step_ret p c Hlive G Hres) as (Hc & Hs & Hm & Hd).
+      constructor; [..|eapply PhOver]; fin4 Hc Hm Hs Hd.
+      all: rewrite C, D; exact I.
+    - (* zero members, the sink disposed inside the greeting *)
+      assert (Hres : resume o CcZero (cst c) = (cst c, [], ARet)).
+      { cbn. now rewrite F. }
+      destruct (step_ret p c Hlive G Hres) as (Hc & Hs & Hm & Hd).
+      unfold ms_settle in Hm; cbn [fold_left map] in Hm. rewrite (done_eq _ Hq) in Hm.
+      constructor; [..|eapply PhOver]; fin4 Hc Hm Hs Hd.
+      all: rewrite C, D; exact I.
+  Qed.
+
+  Lemma inv_step c m : Inv c -> enabled p g_std c m = true -> Inv (step p c m).
+  Proof.
+    intros HI He. destruct m as [[s aux|s u|i d|s]|].
+    - now apply inv_sub.
+    - now apply inv_up.
+    - now apply inv_dn.
+    - exfalso. destruct HI. unfold enabled in He.
+      repeat (apply andb_prop in He; destruct He as [? He]).
+      cbn in He. now rewrite i_task0 in He.
+    - now apply inv_ret.
+  Qed.
+
+  Theorem inv_reach c : reach p g_std c -> Inv c.
+  Proof. induction 1; [apply inv0 | now apply inv_step]. Qed.
+
+
+  (** ** What one activation appends to the trace, whatever the state *)
+  Lemma handle_shape inp s s' os a : handle o inp s = (s', os, a) ->
+    os = [] /\
+    cc_i s' = match inp with ISub 0 _ => 0 | IDn _ DT => S (cc_i s) | _ => cc_i s end /\
+    data_out 0 [act_event o a] = all_in [EIn inp] /\
+    (act_event o a = ECall (CDn 0 DT) -> exists j, inp = IDn j DT /\ S (cc_i s) = n).
+  Proof.
+    unfold o, concat_op, handle, cc_handle, cc_next.
+    destruct inp as [[|s1] aux|[|s1] u|j [|v|e|]|s1]; cbn [cc_i];
+      repeat match goal with
+             | |- context [if ?b then _ else _] => destruct b eqn:?
+             | |- context [match cc_tb ?x with _ => _ end] => destruct (cc_tb x)
+             end;
+      intros H; inversion H; subst; cbn;
+      (split; [reflexivity|split; [try reflexivity|split; [try reflexivity|]]]);
+      try (intros; discriminate); try (destruct u; reflexivity); intros _.
+    1: { match goal with
+         | H1 : (0 =? n) = true, H2 : (n =? 0) = false |- _ =>
+             apply Nat.eqb_eq in H1; rewrite <- H1 in H2; discriminate
+         end. }
+    all: exists j; split; [reflexivity | apply Nat.eqb_eq; assumption].
+  Qed.
+
+  Lemma resume_shape k s s' os a : resume o k s = (s', os, a) ->
+    os = [] /\ s' = s /\ data_out 0 [act_event o a] = [] /\
+    (act_event o a = ECall (CDn 0 DT) -> k = CcZero /\ cc_disposed s = false).
+  Proof.
+    destruct k; cbn.
+    - intros H; inversion H; subst; cbn. repeat split; discriminate.
+    - destruct (cc_disposed s) eqn:E; intros H; inversion H; subst; cbn; repeat split; discriminate.
+  Qed.
+
+
+  (** C09, the data: what the sink has been given is exactly what the members
+      sent, in the order of arrival *)
+  Lemma order_data (c : cfg o) : reach p g_std c -> data_out 0 (trace c) = all_in (trace c).
+  Proof.
+    induction 1 as [|c m Hr IH He]; [reflexivity|].
+    pose proof (enabled_live _ _ _ _ He) as Hlive.
+    destruct m as [inp|].
+    - pose proof (enabled_deliverable _ _ _ _ He) as Hdel.
+      destruct (handle o inp (cst c)) as [[s' os] a] eqn:Hh.
+      rewrite (step_in_trace p c inp Hlive Hdel Hh), data_out_app, all_in_app, IH.
+      f_equal. destruct (handle_shape _ _ Hh) as (-> & _ & Hdata & _).
+      change (EIn inp :: map EObs [] ++ [act_event o a]) with ([EIn inp] ++ [act_event o a]).
+      rewrite data_out_app, all_in_app, Hdata. destruct a; cbn; now rewrite ?app_nil_r.
+    - destruct (enabled_ret_stack _ _ _ He) as (k & cl & rest & Hst).
+      destruct (resume o k (cst c)) as [[s' os] a] eqn:Hres.
+      rewrite (step_ret_trace p c Hlive Hst Hres), data_out_app, all_in_app, IH.
+      f_equal. destruct (resume_shape _ _ Hres) as (-> & _ & Hdata & _).
+      change (ERet :: map EObs [] ++ [act_event o a]) with ([ERet] ++ [act_event o a]).
+      rewrite data_out_app, all_in_app, Hdata. destruct a; reflexivity.
+  Qed.
+
+  (** C09, the order: a member is subscribed only after its predecessor ended *)
+  Lemma order_members (c : cfg o) k : reach p g_std c -> us (ms c) (S k) <> UNone -> us (ms c) k = UEnded.
+  Proof.
+    intros Hr Hk. destruct (inv_reach Hr). apply i_before0.
+    destruct (Nat.lt_ge_cases k (cc_i (cst c))) as [H|H]; [exact H|].
+    exfalso. apply Hk. apply i_after0. lia.
+  Qed.
+
+  (** ** Completion *)
+
+  (** once the sink has been completed the monitor keeps saying so *)
+  Lemma fin_call m cl : sk m 0 = SFinished -> sk (mon_event p m (ECall cl)) 0 = SFinished.
+  Proof.
+    intros H. cbn [mon_event]. rewrite add_viols_eq. cbn.
+    destruct cl as [i|i u|s d]; cbn; [exact H | destruct u; exact H |].
+    destruct (Nat.eq_dec s 0) as [->|Hs].
+    - destruct d as [|v|e|]; cbn; rewrite ?H; cbn; rewrite ?H; try reflexivity.
+      destruct (err_due m 0) as [e'|]; [destruct (e =? e')|]; reflexivity.
+    - assert (Hu : forall k, sk (set_sk m s k) 0 = SFinished).
+      { intros k. cbn. rewrite upd_other by auto. exact H. }
+      destruct d as [|v|e|]; cbn.
+      + destruct (sk m s); auto.
+      + exact H.
+      + destruct (err_due m s) as [e'|]; [destruct (e =? e')|]; destruct (sk m s); cbn;
+          rewrite ?upd_other by auto; auto.
+      + destruct (sk m s); auto.
+  Qed.
+
+  Lemma fin_settle m a : sk m 0 = SFinished -> sk (ms_settle p o m [] a) 0 = SFinished.
+  Proof.
+    intros H. destruct a as [| |cl k]; unfold ms_settle; cbn [fold_left map].
+    - cbn [mon_event]. destruct (cstack m); rewrite ?add_viols_eq; exact H.
+    - exact H.
+    - now apply fin_call.
+  Qed.
+
+  Lemma fin_step (c : cfg o) m : Inv c -> enabled p g_std c m = true ->
+    sk (ms c) 0 = SFinished -> sk (ms (step p c m)) 0 = SFinished.
+  Proof.
+    intros HI He Hf. pose proof (enabled_live _ _ _ _ He) as Hlive.
+    destruct m as [inp|].
+    - pose proof (enabled_deliverable _ _ _ _ He) as Hdel.
+      destruct (handle o inp (cst c)) as [[s' os] a] eqn:Hh.
+      destruct (step_in p c inp Hlive Hdel Hh) as (_ & _ & Hm & _).
+      destruct (handle_shape _ _ Hh) as (-> & _). rewrite Hm. apply fin_settle.
+      destruct inp as [s aux|s u|j d|s].
+      + destruct aux; exact Hf.
+      + exfalso. start_in He Hl' Hd' Hg. cbn in He.
+        apply andb_prop in He. destruct He as [He _]. apply andb_prop in He. destruct He as [_ He].
+        destruct s as [|s]; [rewrite Hf in He|rewrite (i_sk_other HI) in He by lia]; discriminate.
+      + destruct d; exact Hf.
+      + exact Hf.
+    - destruct (enabled_ret_stack _ _ _ He) as (k & cl & rest & Hst).
+      destruct (resume o k (cst c)) as [[s' os] a] eqn:Hres.
+      destruct (step_ret p c Hlive Hst Hres) as (_ & _ & Hm & _).
+      destruct (resume_shape _ _ Hres) as (-> & _). rewrite Hm. apply fin_settle. exact Hf.
+  Qed.
+
+
+  Lemma live_dt m k : sk m 0 = SLive ->
+    sk (ms_settle p o m [] (ACall (CDn 0 DT) k)) 0 = SFinished.
+  Proof.
+    intros H. unfold ms_settle. cbn [fold_left map mon_event]. rewrite add_viols_eq. cbn.
+    rewrite H. reflexivity.
+  Qed.
+
+  Lemma act_dt (a : act (Fr o)) : act_event o a = ECall (CDn 0 DT) -> exists k, a = ACall (CDn 0 DT) k.
+  Proof. destruct a as [| |cl k]; cbn; intros H; inversion H. now exists k. Qed.
+
+  Lemma dt_in_act (a : act (Fr o)) : dt_in [act_event o a] = 0.
+  Proof. destruct a; reflexivity. Qed.
+
+  Lemma sub_enabled_init (c : cfg o) s aux : Inv c -> enabled p g_std c (MIn (ISub s aux)) = true ->
+    s = 0 /\ cst c = st0 o /\ sk (ms c) 0 = SNone.
+  Proof.
+    intros [] He. start_in He Hlive Hdel Hg. cbn in He. rewrite Hns in He.
+    apply andb_prop in He. destruct He as [He Hsub]. apply andb_prop in He. destruct He as [_ He].
+    destruct s; cbn in He; [|discriminate]. apply negb_true_iff in Hsub.
+    phases i_phase0; try congruence. auto.
+  Qed.
+
+  Lemma frames_zero (c : cfg o) cl rs : Inv c -> stack c = (CcZero, cl) :: rs ->
+    cc_disposed (cst c) = false -> n = 0 /\ cc_i (cst c) = 0 /\ sk (ms c) 0 = SLive.
+  Proof.
+    intros [] Hst Hdis. phases i_phase0; try congruence; try tauto.
+    all: match goal with
+         | H : done_frames (stack _) |- _ =>
+             rewrite Hst in H; apply done_inv in H; destruct H; discriminate
+         end.
+  Qed.
+
+  (** the part of the invariant that talks about the trace *)
+  Record TInv (c : cfg o) : Prop := {
+    t_cnt : cc_i (cst c) = dt_in (trace c);
+    t_mem : forall j, j < cc_i (cst c) -> In (EIn (IDn j DT)) (trace c);
+    t_done : In (ECall (CDn 0 DT)) (trace c) -> cc_i (cst c) = n /\ sk (ms c) 0 = SFinished;
+    t_conv : 0 < n -> cc_i (cst c) = n -> In (ECall (CDn 0 DT)) (trace c);
+  }.
+
+  Lemma tinv_step (c : cfg o) m : Inv c -> TInv c -> enabled p g_std c m = true -> TInv (step p c m).
+  Proof.
+    intros HI [] He. pose proof (enabled_live _ _ _ _ He) as Hlive.
+    destruct m as [inp|].
+    - pose proof (enabled_deliverable _ _ _ _ He) as Hdel.
+      destruct (handle o inp (cst c)) as [[s' os] a] eqn:Hh.
+      destruct (step_in p c inp Hlive Hdel Hh) as (Hc & _ & Hm & _).
+      pose proof (step_in_trace p c inp Hlive Hdel Hh) as Ht.
+      destruct (handle_shape _ _ Hh) as (-> & Hi & _ & Hdt). cbn [map app] in Ht.
+      assert (Hcases : (exists j, inp = IDn j DT) \/
+                       (cc_i s' = cc_i (cst c) /\ dt_in [EIn inp] = 0 /\
+                        act_event o a <> ECall (CDn 0 DT) /\ EIn inp <> ECall (CDn 0 DT))).
+      { assert (Hnodt : (forall j, inp <> IDn j DT) -> act_event o a <> ECall (CDn 0 DT)).
+        { intros Hne Ha. destruct (Hdt Ha) as (j & Hj & _). exact (Hne j Hj). }
+        destruct inp as [s aux|s u|j d|s].
+        - right. destruct (sub_enabled_init _ _ HI He) as (-> & E0 & _).
+          rewrite Hi, E0. split; [reflexivity|]. split; [reflexivity|].
+          split; [apply Hnodt|]; discriminate.
+        - right. split; [destruct s; exact Hi|]. split; [reflexivity|].
+          split; [apply Hnodt|]; discriminate.
+        - destruct d as [|v|e|]; [right|right|right|left; now exists j].
+          all: split; [exact Hi|]; split; [reflexivity|]; split; [apply Hnodt|]; discriminate.
+        - right. split; [exact Hi|]. split; [reflexivity|].
+          split; [apply Hnodt|]; discriminate. }
+      destruct Hcases as [[j ->]|(Hsame & Hz & Hna & Hni)].
+      + (* a member terminates *)
+        start_in He Hl' Hd' Hg. cbn in He.
+        apply andb_prop in He. destruct He as [_ He]. apply andb_prop in He. destruct He as [He _].
+        destruct (us (ms c) j) eqn:Eus; try discriminate.
+        destruct (live_current j HI Eus) as (-> & Hsk & Hlt & _).
+        constructor; rewrite ?Hc, ?Ht, ?Hi.
+        * rewrite dt_in_app.
+          change (dt_in [EIn (IDn (cc_i (cst c)) DT); act_event o a])
+            with (S (dt_in [act_event o a])).
+          rewrite dt_in_act. lia.
+        * intros j Hj. apply in_or_app. destruct (Nat.eq_dec j (cc_i (cst c))) as [->|Hne].
+          -- right. now left.
+          -- left. apply t_mem0. lia.
+        * intros Hin. apply in_app_or in Hin. destruct Hin as [Hin|Hin].
+          -- destruct (t_done0 Hin) as [_ Hf]. congruence.
+          -- destruct Hin as [Hin|[Hin|[]]]; [discriminate|].
+             destruct (Hdt Hin) as (_ & _ & Hn). split; [exact Hn|].
+             destruct (act_dt _ Hin) as [k ->]. rewrite Hm. apply live_dt. exact Hsk.
+        * intros Hpos Hn. apply in_or_app. right. right. left.
+          rewrite (h_dt_last _ _ Hn) in Hh. inversion Hh. reflexivity.
+      + constructor; rewrite ?Hc, ?Ht, ?Hsame.
+        * rewrite dt_in_app. 
+          change (dt_in [EIn inp; act_event o a]) with (dt_in ([EIn inp] ++ [act_event o a])).
+          rewrite dt_in_app, Hz, dt_in_act. lia.
+        * intros j Hj. apply in_or_app. left. now apply t_mem0.
+        * intros Hin. apply in_app_or in Hin. destruct Hin as [Hin|Hin].
+          -- destruct (t_done0 Hin) as [Hn Hf]. split; [exact Hn|]. now apply fin_step.
+          -- destruct Hin as [Hin|[Hin|[]]]; congruence.
+        * intros Hpos Hn. apply in_or_app. left. now apply t_conv0.
+    - destruct (enabled_ret_stack _ _ _ He) as (k & cl & rest & Hst).
+      destruct (resume o k (cst c)) as [[s' os] a] eqn:Hres.
+      destruct (step_ret p c Hlive Hst Hres) as (Hc & _ & Hm & _).
+      pose proof (step_ret_trace p c Hlive Hst Hres) as Ht.
+      destruct (resume_shape _ _ Hres) as (-> & -> & _ & Hdt). cbn [map app] in Ht.
+      constructor; rewrite ?Hc, ?Ht.
+      + rewrite dt_in_app.
+        change (dt_in [ERet; act_event o a]) with (dt_in [act_event o a]).
+        rewrite dt_in_act. lia.
+      + intros j Hj. apply in_or_app. left. now apply t_mem0.
+      + intros Hin. apply in_app_or in Hin. destruct Hin as [Hin|Hin].
+        * destruct (t_done0 Hin) as [Hn Hf]. split; [exact Hn|]. now apply fin_step.
+        * destruct Hin as [Hin|[Hin|[]]]; [discriminate|].
+          destruct (Hdt Hin) as [-> Hdis].
+          destruct (frames_zero HI Hst Hdis) as (Hn & Hi & Hsk).
+          split; [congruence|]. destruct (act_dt _ Hin) as [k ->]. rewrite Hm. apply live_dt.
+          exact Hsk.
+      + intros Hpos Hn. apply in_or_app. left. now apply t_conv0.
+  Qed.
+
+  Lemma tinv0 : TInv (cfg0 o).
+  Proof.
+    constructor; cbn.
+    - reflexivity.
+    - intros j Hj. lia.
+    - intros [].
+    - intros Hpos Hn. lia.
+  Qed.
+
+  Lemma tinv_reach (c : cfg o) : reach p g_std c -> TInv c.
+  Proof.
+    induction 1 as [|c m Hr IH He]; [apply tinv0|].
+    apply tinv_step; [now apply inv_reach | exact IH | exact He].
+  Qed.
+
+  Lemma live_lt (c : cfg o) : Inv c -> 0 < n -> sk (ms c) 0 = SLive -> cc_i (cst c) < n.
+  Proof.
+    intros [] Hpos Hsk. phases i_phase0; try congruence; try lia.
+    rewrite Hsk in B. discriminate.
+  Qed.
+
+  (** whenever the sink is in a position to use its talkback, the stored
+      member talkback is the current member's and that member is live: the
+      [expect("source talkback not set")] sites are unreachable and no message
+      of the sink reaches a member that is over *)
+  Lemma sink_turn (c : cfg o) : Inv c -> 0 < n -> sk (ms c) 0 = SLive ->
+    top_peer_is c (PSink 0) = true ->
+    cc_tb (cst c) = Some (cc_i (cst c)) /\ us (ms c) (cc_i (cst c)) = ULive.
+  Proof.
+    clear Hns Hresub Hnonest Hc14 Hlate.
+    intros [] Hpos Hsk Htop. phases i_phase0; try congruence; try lia; try tauto.
+    - unfold top_peer_is in Htop. rewrite D in Htop. discriminate.
+    - rewrite Hsk in B. discriminate.
+  Qed.
+
+  (** ** The Pull is carried over to the next member *)
+  Lemma pull_carried (c : cfg o) j :
+    reach p g_std c -> enabled p g_std c (MIn (IDn j DH)) = true -> 0 < j ->
+    (0 < npull (ms c) 0 ->
+     trace (step p c (MIn (IDn j DH))) = trace c ++ [EIn (IDn j DH); ECall (CUp j UP)] /\
+     stack (step p c (MIn (IDn j DH))) = (CcDone, CUp j UP) :: stack c) /\
+    (npull (ms c) 0 = 0 ->
+     trace (step p c (MIn (IDn j DH))) = trace c ++ [EIn (IDn j DH); EDone] /\
+     stack (step p c (MIn (IDn j DH))) = stack c).
+  Proof.
+    intros Hr He Hj. pose proof (inv_reach Hr) as HI. pose proof HI as [].
+    pose proof (enabled_live _ _ _ _ He) as Hlive.
+    pose proof (enabled_deliverable _ _ _ _ He) as Hdel.
+    assert (Eus : us (ms c) j = USubd).
+    { unfold enabled in He. rewrite Hlive in He. cbn in He.
+      apply andb_prop in He. destruct He as [_ He]. apply andb_prop in He. destruct He as [He _].
+      destruct (us (ms c) j); try discriminate. reflexivity. }
+    destruct (subd_current j HI Eus) as (-> & Hlt & _).
+    assert (Hi : cc_i (cst c) <> 0) by lia.
+    assert (Hpos : 0 < n) by lia. specialize (i_pull0 Hpos).
+    split; intros Hp.
+    - assert (Egp : cc_got_pull (cst c) = true) by (apply i_pull0; exact Hp).
+      pose proof (h_dh_pull (cc_i (cst c)) (cst c) Hi Egp) as Hh.
+      destruct (step_in p c _ Hlive Hdel Hh) as (_ & Hs & _).
+      split; [|exact Hs]. rewrite (step_in_trace p c _ Hlive Hdel Hh). reflexivity.
+    - assert (Egp : cc_got_pull (cst c) = false).
+      { destruct (cc_got_pull (cst c)); [|reflexivity].
+        assert (0 < npull (ms c) 0) by (apply i_pull0; reflexivity). lia. }
+      pose proof (h_dh_idle (cc_i (cst c)) (cst c) Hi Egp) as Hh.
+      destruct (step_in p c _ Hlive Hdel Hh) as (_ & Hs & _).
+      split; [|exact Hs]. rewrite (step_in_trace p c _ Hlive Hdel Hh). reflexivity.
+  Qed.
+
 End ConcatInv.
+
+(** ** The exported theorems.
+
+    Regime: one sink, no resubscription, no nesting check, no demand counts,
+    members greet inside the subscribing call. *)
+
+(** C01-C05, C17: no protocol violation and no panic in any reachable configuration,
+    for every member count (zero included) *)
+Theorem concat_safe n p :
+  nsinks p = 1 -> resub p = false -> no_nest p = false -> c14 p = false -> late_ok p = false ->
+  forall c : cfg (concat_op n), reach p g_std c -> viols (ms c) = [] /\ dead c = false.
+Proof.
+  intros H1 H2 H3 H4 H5 c Hr. destruct (inv_reach H1 H2 H3 H4 H5 Hr). split; assumption.
+Qed.
+Print Assumptions concat_safe.
+
+(** C09: the sink receives exactly the data the members sent, in the order of
+    arrival; a member is subscribed only after its predecessor ended; at most
+    one member (the one at the cursor) is subscribed-and-not-over, all members
+    before it have ended and none after it was ever subscribed; and whenever
+    it is the sink's turn the stored talkback is the current, live member's. *)
+Theorem concat_order n p :
+  nsinks p = 1 -> resub p = false -> no_nest p = false -> c14 p = false -> late_ok p = false ->
+  forall c : cfg (concat_op n), reach p g_std c ->
+    data_out 0 (trace c) = all_in (trace c) /\
+    (forall k, S k < n -> us (ms c) (S k) <> UNone -> us (ms c) k = UEnded) /\
+    (forall j, us (ms c) j = USubd \/ us (ms c) j = ULive -> j = cc_i (cst c)) /\
+    (forall j, j < cc_i (cst c) -> us (ms c) j = UEnded) /\
+    (forall j, cc_i (cst c) < j -> us (ms c) j = UNone) /\
+    (0 < n -> sk (ms c) 0 = SLive -> top_peer_is c (PSink 0) = true ->
+     cc_tb (cst c) = Some (cc_i (cst c)) /\ us (ms c) (cc_i (cst c)) = ULive).
+Proof.
+  intros H1 H2 H3 H4 H5 c Hr. split; [|split; [|split; [|split; [|split]]]].
+  4: exact (i_before (inv_reach H1 H2 H3 H4 H5 Hr)).
+  4: exact (i_after (inv_reach H1 H2 H3 H4 H5 Hr)).
+  4: exact (sink_turn (inv_reach H1 H2 H3 H4 H5 Hr)).
+  - exact (order_data Hr).
+  - intros k _. now apply (order_members H1 H2 H3 H4 H5).
+  - intros j [Hj|Hj].
+    + now destruct (subd_current j (inv_reach H1 H2 H3 H4 H5 Hr) Hj).
+    + now destruct (live_current j (inv_reach H1 H2 H3 H4 H5 Hr) Hj).
+Qed.
+Print Assumptions concat_order.
+
+(** C09: completion.  [cc_i] counts the member Terminates received; while the
+    sink is live it is below [n]; the sink has been sent Terminate exactly when
+    [n] member Terminates have arrived (for [n >= 1]; for [n = 0] the sink is
+    completed after its greeting unless it disposed), and then every member
+    ended by its own Terminate and the sink is finished. *)
+Theorem concat_completes n p :
+  nsinks p = 1 -> resub p = false -> no_nest p = false -> c14 p = false -> late_ok p = false ->
+  forall c : cfg (concat_op n), reach p g_std c ->
+    cc_i (cst c) = dt_in (trace c) /\
+    (0 < n -> sk (ms c) 0 = SLive -> cc_i (cst c) < n) /\
+    (In (ECall (CDn 0 DT)) (trace c) ->
+       sk (ms c) 0 = SFinished /\ dt_in (trace c) = n /\
+       forall j, j < n -> us (ms c) j = UEnded /\ In (EIn (IDn j DT)) (trace c)) /\
+    (0 < n -> dt_in (trace c) = n -> In (ECall (CDn 0 DT)) (trace c)).
+Proof.
+  intros H1 H2 H3 H4 H5 c Hr.
+  pose proof (inv_reach H1 H2 H3 H4 H5 Hr) as HI.
+  destruct (tinv_reach H1 H2 H3 H4 H5 Hr) as [Hcnt Hmem Hdone Hconv].
+  split; [exact Hcnt|]. split; [now apply live_lt|]. split.
+  - intros Hin. destruct (Hdone Hin) as [Hn Hf]. split; [exact Hf|]. split; [congruence|].
+    intros j Hj. split; [apply (i_before HI) | apply Hmem]; lia.
+  - intros Hpos Hn. apply Hconv; congruence.
+Qed.
+Print Assumptions concat_completes.
+
+(** C09: the sink's demand is carried over.  The flag says exactly whether the
+    sink ever pulled, and a member other than the first is pulled in the very
+    activation in which it greets iff the sink has pulled before. *)
+Theorem concat_pull_carried n p :
+  nsinks p = 1 -> resub p = false -> no_nest p = false -> c14 p = false -> late_ok p = false ->
+  forall c : cfg (concat_op n), reach p g_std c ->
+    (0 < n -> (cc_got_pull (cst c) = true <-> 0 < npull (ms c) 0)) /\
+    (forall j, enabled p g_std c (MIn (IDn j DH)) = true -> 0 < j ->
+       (0 < npull (ms c) 0 ->
+        trace (step p c (MIn (IDn j DH))) = trace c ++ [EIn (IDn j DH); ECall (CUp j UP)] /\
+        stack (step p c (MIn (IDn j DH))) = (CcDone, CUp j UP) :: stack c) /\
+       (npull (ms c) 0 = 0 ->
+        trace (step p c (MIn (IDn j DH))) = trace c ++ [EIn (IDn j DH); EDone] /\
+        stack (step p c (MIn (IDn j DH))) = stack c)).
+Proof.
+  intros H1 H2 H3 H4 H5 c Hr. split.
+  - exact (i_pull (inv_reach H1 H2 H3 H4 H5 Hr)).
+  - intros j He Hj. now apply (pull_carried H1 H2 H3 H4 H5).
+Qed.
+Print Assumptions concat_pull_carried.
+
+
+(** ** Non-vacuity: a conformant run of two members in which the sink pulls
+    inside its greeting, member 0 sends one item and terminates, member 1 is
+    subscribed inside that Terminate, is pulled at once, sends one item and
+    terminates, and the sink is completed. *)
+Definition p_std : mparams :=
+  {| nsinks := 1; late_ok := false; pullable := false; one_pull := false;
+     resub := false; no_nest := false; c14 := false |}.
+
+Definition witness_script : list move :=
+  [MIn (ISub 0 0); MIn (IDn 0 DH); MIn (IUp 0 UP); MRet; MRet;
+   MIn (IDn 0 (DD (VN 1))); MRet;
+   MIn (IDn 0 DT); MIn (IDn 1 DH); MIn (IDn 1 (DD (VN 2))); MRet; MRet;
+   MIn (IDn 1 DT); MRet; MRet; MRet].
+
+Example concat_witness :
+  let c := run p_std (concat_op 2) witness_script in
+  reach p_std g_std c /\ stack c = [] /\ sk (ms c) 0 = SFinished /\
+  data_out 0 (trace c) = [VN 1; VN 2] /\ In (ECall (CDn 0 DT)) (trace c) /\
+  In (ECall (CUp 1 UP)) (trace c).
+Proof.
+  split; [apply reach_run; vm_compute; reflexivity|].
+  vm_compute. repeat split; auto 30.
+Qed.
